@@ -31,8 +31,10 @@ CLAIMED = {
  "C18": ("SSA path tables (decision tables over flag atoms), struct-literal field fidelity",
          "Static necessary conditions only: MergeErrors' per-field merge operators and nil rows on every SSA path, the exhaustive HTTP status / gRPC code / client classification decision tables, and like-named field fidelity of the four wire conversions. Does not prove associativity as a law nor value-level round trips.",
          "DESIGN.md §3 C18"),
+ "C20": ("shared-write inventory on SSA (globals, captured variables of escaping closures) with a must-hold lock dataflow; atomic-field consistency; receiver-write scan of shared types",
+         "Static necessary conditions only (hold for every schedule): every request-time write to a package variable or to a variable captured by an escaping closure is locked or atomic; atomically accessed fields are never accessed plainly; lock-protected globals are read under a lock; request-time methods of shared types do not write receiver state. Does not decide race freedom of generated code for every design, user code or third parties.",
+         "DESIGN.md §3 C20"),
 }
-
 PENDING_REASON = "static rules for this property are designed (DESIGN.md §3) but not built yet in this revision; not claimed until its check exists"
 
 def main():
